@@ -260,8 +260,10 @@ def judge_include_bytes(asm, acc, case):
     root = tempfile.mkdtemp(prefix='bbv-c10-')
     old = os.getcwd()
     try:
-        srcdir = os.path.join(root, 'Proj', 'src')
-        incdir = os.path.join(root, 'Proj', 'Assets')
+        # (directories named the way people name them: blanks, parentheses, commas, a hash sign)
+        odd = case['size'] % 3 == 2 or case['decoy'] == 'different'
+        srcdir = os.path.join(root, 'My Proj (copy)' if odd else 'Proj', 'src,v2' if odd else 'src')
+        incdir = os.path.join(root, 'My Proj (copy)' if odd else 'Proj', 'Assets #2' if odd else 'Assets')
         other = os.path.join(root, 'elsewhere')
         decoy = os.path.join(root, 'decoy')
         for d in (srcdir, incdir, other, decoy):
